@@ -36,7 +36,8 @@ PROTO_METHODS = ['_unitary_', '_has_unitary_', '_kraus_', '_has_kraus_', '_mixtu
                  '_with_measurement_key_mapping_', '_with_key_path_', '_with_key_path_prefix_', '_with_rescoped_keys_', '_apply_channel_',
                  '_superoperator_', '_has_superoperator_', '_circuit_diagram_info_', '_qasm_']
 
-KERNEL_PROBES = [(1, 0), (1, 0.3), (1, -0.5), (0.5, 0), (0.25, 0.2), (-1, 0), (2, 0), (1.5, 0.5), (3, 0)]
+KERNEL_PROBES = [(1, 0), (1, 0.3), (1, -0.5), (0.5, 0), (0.25, 0.2), (-1, 0), (2, 0), (1.5, 0.5), (3, 0),
+                 (2, -0.5), (-2, 0.25), (4, 0.125), (0, 0.7), (6, -0.5)]  # whole turns with a shift phase: identity fast paths must keep the phase
 
 
 class _GiveUp(Exception):
